@@ -1,6 +1,6 @@
 SPECIFICATION Spec
 CONSTANTS
-  Limits = {"0", "1", "2k", "64k"}
+  Limits = {"0", "1", "2k", "64k", "maxint"}
   Sizes = {"natural", "lim-1", "lim", "lim+1", "x100", "x1000"}
   Entries = {"validate", "validateEncInner", "info", "predecodeResp", "predecodeLogout", "logoutReq", "logoutResp"}
 INVARIANTS InvC12 RunAgrees Emit
